@@ -71,6 +71,10 @@ func semRun(c *Ctx, flavour string, n int, prop string) {
 			src = gen.TryProgram(r)
 		case "tailcall":
 			src = gen.TailCallProgram(r)
+		case "callbind":
+			src = gen.CallBindProgram(i)
+		case "closures":
+			src = gen.ClosureChainProgram(r)
 		default:
 			src = gen.Program(r, semProgOpts(r, flavour))
 		}
@@ -88,12 +92,20 @@ func semRun(c *Ctx, flavour string, n int, prop string) {
 		implNo := runPlain(bcNo, ugo.Map{}, args)
 		cls := strings.SplitN(strings.TrimPrefix(implNo, "out="), " ", 2)[0]
 		c.Count("outcome:" + cls)
+		if strings.HasPrefix(implNo, "out=timeout") {
+			c.Count("skipped:step-limit")
+			continue
+		}
+		if strings.Contains(implNo, codec.Cyclic) {
+			c.Count("skipped:cyclic-value")
+			continue
+		}
 		if mapOrderSensitive(implNo) {
 			// text derived from Go map iteration order (String() of a map with several keys)
 			c.Count("skipped:map-order")
 			continue
 		}
-		if strings.Contains(implNo, "StackOverflow") || strings.HasPrefix(implNo, "out=panic") {
+		if strings.Contains(implNo, "StackOverflow") || (strings.HasPrefix(implNo, "out=panic") && strings.Contains(implNo, "with length 2048")) {
 			// value-stack exhaustion is a VM limit the reference semantics does not have
 			c.Count("skipped:vm-limit")
 			continue
@@ -112,6 +124,12 @@ func semRun(c *Ctx, flavour string, n int, prop string) {
 				continue
 			}
 			implOpt := runPlain(bcOpt, ugo.Map{}, args)
+			if strings.HasPrefix(implOpt, "out=timeout") {
+				// the step bound counts VM instructions; an optimized program executes fewer, so
+				// only the unoptimized run decides whether the case is within the bound
+				c.Count("skipped:step-limit-opt")
+				continue
+			}
 			if implOpt != implNo {
 				c.Violation(PropViolation{"C01", fmt.Sprintf("optimized (limit %d) and unoptimized runs differ: %s  vs  %s", lim, implOpt, implNo), src + "\nargs: " + strings.Join(encodeAll(args), ";"), "C01:opt-differs"})
 			}
@@ -175,12 +193,14 @@ func init() {
 		Name: "sem",
 		Skip: vmSkip,
 		Run: func(c *Ctx) {
-			c.Rule("random scripts (gen.Program; flavours: general, try-heavy, call-heavy) run by the implementation (compiler+VM, optimizer off) vs the reference semantics Spec/Sem on the same AST: outcome and final globals (side-effect log); also optimizer on at limits {default,1,3} vs off (C01); distinct = distinct (outcome class, outcome hash)")
+			c.Rule("random scripts (gen.Program; flavours: general, try-heavy, call-heavy, try enumeration, self tail calls, the complete call-binding enumeration (params 0..3 x variadic x explicit args 0..4 x spread none/0..4 x 5 call positions), chains of sibling closures) run by the implementation (compiler+VM, optimizer off) vs the reference semantics Spec/Sem on the same AST: outcome and final globals (side-effect log); also optimizer on at limits {default,1,3} vs off (C01); distinct = distinct (outcome class, outcome hash)")
 			semRun(c, "general", 700*c.Scale, "C02")
 			semRun(c, "try", 500*c.Scale, "C03")
 			semRun(c, "calls", 300*c.Scale, "C02")
 			semRun(c, "tryenum", 1500*c.Scale, "C03")
 			semRun(c, "tailcall", 300*c.Scale, "C02")
+			semRun(c, "callbind", gen.NumCallBindPrograms, "C02")
+			semRun(c, "closures", 200*c.Scale, "C02")
 		},
 	})
 }
